@@ -270,5 +270,33 @@ if want('bi_from_usize'):
 if want('bi_from_isize'):
     w(conv4_names(usz(G.BI_FROM_S, 'isize')).lstrip('\n'))
 
+# ---- AsPrimitive<T>::as_ : forwarders to CastFrom::cast_from (contracts: the cast_req/cast_post members, unit cast)
+PRIMS = ['u8', 'u16', 'u32', 'u64', 'u128', 'usize', 'i8', 'i16', 'i32', 'i64', 'i128', 'isize']
+AS_PRIM = r'''
+//! fn impl(AsPrimitive<@T@>for@SELF@<N>)::as_ [ext_trait=AsPrimitive_@T@]
+fn AsPrimitive_@T@__as_(self) -> /*@{*/(r: /*}@*/@T@/*@{*/)/*}@*/
+    /*@{*/ requires <@T@ as CastFrom<@SELF@<N>>>::cast_req(self)
+    ensures <@T@ as CastFrom<@SELF@<N>>>::cast_post(self, r) /*}@*/
+{
+    <@T@>::cast_from(self)
+}
+'''
+AS_BIG = r'''
+//! fn impl(AsPrimitive<@TO@<M>>for@SELF@<N>)::as_ [ext_trait=AsPrimitive_@TON@M]
+fn AsPrimitive_@TON@M__as_<const M: usize>(self) -> /*@{*/(r: /*}@*/crate::@TO@<M>/*@{*/)/*}@*/
+    /*@{*/ requires <@TO@<M> as CastFrom<@SELF@<N>>>::cast_req(self)
+    ensures <@TO@<M> as CastFrom<@SELF@<N>>>::cast_post(self, r) /*}@*/
+{
+    crate::@TO@::<M>::cast_from(self)
+}
+'''
+for SELF in ('$BUint', '$BInt'):
+    for T in PRIMS:
+        if want('as_' + T):
+            w(AS_PRIM.replace('@T@', T).replace('@SELF@', SELF).lstrip('\n'))
+    for TO in ('$BUint', '$BInt'):
+        if want('as_big'):
+            w(AS_BIG.replace('@TON@', TO[1:]).replace('@TO@', TO).replace('@SELF@', SELF).lstrip('\n'))
+
 root = os.path.dirname(os.path.dirname(os.path.abspath(__file__)))
 open(os.path.join(root, 'units', 'numtraits_conv4.vrs'), 'w').write(''.join(OUT))
